@@ -20,7 +20,7 @@ RULE = ("mazes: EVERY well-formed connection structure on every grid shape r x c
         "pairs + random pairs), the ring of out-of-grid neighbours, far out-of-range pairs; every cell; paths from a mutation generator "
         "(valid walks, one broken step, jump, repeated cell, out of bounds, single cell, empty with both flag values); 4 shuffle "
         "settings of as_adj_list; from_adj_list on those and on malformed lists; random walks and BFS-shortest solutions with both "
-        "always_include_endpoints values. non-trivial = maze with at least one connection; distinct = distinct (shape, bit set); later additions: the library's own int8 edge arrays in both orientations, one-cell solutions on isolated cells, and every array a view returns overwritten by the caller before the maze under observation is queried")
+        "always_include_endpoints values. non-trivial = maze with at least one connection; distinct = distinct (shape, bit set); later additions: the library's own int8 edge arrays in both orientations, one-cell solutions on isolated cells, and every array a view returns overwritten by the caller before the maze under observation is queried, candidate paths with one long jump (2, 126..130, 254..259) on 1x300 / 300x1 / 130x130 lattices")
 ASSUMPTIONS = ["coordinates fit numpy int8 (< 127): as_adj_list / lattice_connection_array store int8 (grids up to 15x15 are exercised)",
                "is_connection is judged on lattice-neighbour pairs only (its parameter type is ConnectionArray); on other pairs the model "
                "mirrors the code (np.sort(axis=1) quirk: diagonal / distant pairs can answer True) and only model-vs-code is compared",
